@@ -310,6 +310,35 @@ func readerMain(args []string) {
 		}
 		readerRaw(w, fmt.Sprintf("mal-%d", c), r.malformed(), cuts, 3)
 	}
+	// inline (telnet) syntax: outside the model, but nothing a client types may make the reader panic or hang
+	for c := 0; c < nm/2; c++ {
+		var cuts []int
+		if r.intn(2) == 0 {
+			for i := 0; i < 30; i++ {
+				cuts = append(cuts, 1+r.intn(3))
+			}
+		}
+		readerRaw(w, fmt.Sprintf("inl-%d", c), r.inlineHostile(), cuts, 3)
+	}
+}
+
+// inlineHostile: lines built from the characters the inline parser treats specially - spaces, quotes, backslashes,
+// CR and LF - in every position, including at the very start of the connection's buffer
+func (r *rng) inlineHostile() []byte {
+	alphabet := []string{"\\", "\"", " ", "a", "set", "k", "'", "\r", "\n", "\r\n", "\t", "\x00", "  ", "\\\\", "\\\"", "\"\""}
+	var b []byte
+	nl := 1 + r.intn(3)
+	for l := 0; l < nl; l++ {
+		nt := r.intn(8)
+		for i := 0; i < nt; i++ {
+			b = append(b, alphabet[r.intn(len(alphabet))]...)
+		}
+		b = append(b, r.pick([]string{"\r\n", "\n", "", "\r\n\r\n"})...)
+	}
+	if len(b) == 0 || b[0] == '*' {
+		b = append([]byte("\\ "), b...)
+	}
+	return b
 }
 
 // lengths and counts a hostile client may announce: around the limits, around 2^31, 2^32 and 2^63/2^64 (wrap-around of
@@ -324,7 +353,7 @@ func (r *rng) malformed() []byte {
 	lens := hostileLens
 	term := []string{"\r\n", "\n", "\r", "", "\r\r\n", "\n\n"}
 	var b []byte
-	switch r.intn(10) {
+	switch r.intn(11) {
 	case 0: // bad array count
 		b = []byte("*" + r.pick(lens) + r.pick(term) + "$3\r\nGET\r\n$1\r\nk\r\n")
 	case 1, 2, 3: // bad bulk length
@@ -341,6 +370,8 @@ func (r *rng) malformed() []byte {
 		b = []byte("*2\r\n$4\r\nECHO\r\n$" + r.pick([]string{"2", "10", "4"}) + "\r\nabcd\r\n*1\r\n$4\r\nPING\r\n")
 	case 8: // nested / huge count with little data
 		b = []byte("*" + r.pick([]string{"100", "1000000"}) + "\r\n$1\r\na\r\n")
+	case 9:
+		b = r.inlineHostile()
 	default:
 		b = append([]byte("*"), r.bytes(r.intn(30))...)
 	}
